@@ -30,6 +30,9 @@ Scenario (JSON-serialisable dict, every time in absolute virtual milliseconds, -
                                  instant are performed BEFORE the cancel in the same callback
   expect100   1: the request is sent with `Expect: 100-continue` (body only after a 1xx arrived); with `wresume` the
               transport then pauses at the body write instead of the head write
+  ceil_thr    None | ms: ClientTimeout.ceil_threshold (default 5000)
+  per_request 1: the timeouts are passed with the request (`timeout=`); the session default carries other, much
+              shorter connect/sock_connect/sock_read bounds that must not apply
   c0          0|1|2: Task.cancelling() of the calling task when it starts the request (pre-cancelled and caught)
   think       ms the consumer sleeps after the headers before reading the body
   consume     None: `await resp.read()` | "stream": `while await resp.content.readany()` inside `async with` |
@@ -279,6 +282,7 @@ class Env:
                 self.trace["delivered"] = []
                 self.trace["established"] = []
                 self.trace["attempts"] = []
+                self.trace["abandoned"] = []
             fut = self.loop.create_future()
             self.conn_futs.append(fut)
             self.trace["attempts"].append(self.now())
@@ -375,11 +379,16 @@ def run_scenario(sc):
             limit = sc["limit"]
         conn = aiohttp.TCPConnector(limit=limit, resolver=env, use_dns_cache=True, ttl_dns_cache=None)
         conn._resolver_owner = False
+        tkw = {} if sc.get("ceil_thr") is None else {"ceil_threshold": sc["ceil_thr"] / 1000.0}
         tmo = aiohttp.ClientTimeout(total=sec(sc.get("total")), connect=sec(sc.get("connect")),
-                                    sock_connect=sec(sc.get("sock_connect")), sock_read=sec(sc.get("sock_read")))
+                                    sock_connect=sec(sc.get("sock_connect")), sock_read=sec(sc.get("sock_read")), **tkw)
         res = {"R": None, "C": None, "H": None, "F": None, "G": None}
         at = {}
-        session = aiohttp.ClientSession(connector=conn, timeout=tmo, read_bufsize=sc.get("bufsize", 65536))
+        # per_request: R's timeouts are given with the request (`timeout=`); the session default is a different object
+        # with bounds that must NOT apply (short connect/sock_read that would fire first, no total)
+        sess_tmo = tmo if not sc.get("per_request") else aiohttp.ClientTimeout(total=None, connect=0.05, sock_connect=0.05,
+                                                                               sock_read=0.05)
+        session = aiohttp.ClientSession(connector=conn, timeout=sess_tmo, read_bufsize=sc.get("bufsize", 65536))
         rhost = "r.test" if sc.get("dns") is not None else "10.0.0.1"
 
         async def job(name, url, data=None, think=0, timeout=None):
@@ -452,7 +461,8 @@ def run_scenario(sc):
                 events.append((sc["holder"], 1, rel))
         body = (b"x" * sc["body"]) if sc.get("body") else None
         scheme = "https" if sc.get("tls") is not None else "http"
-        start_r = lambda: spawn("R", f"{scheme}://{rhost}/", data=body, think=sc.get("think", 0))
+        start_r = lambda: spawn("R", f"{scheme}://{rhost}/", data=body, think=sc.get("think", 0),
+                                timeout=(tmo if sc.get("per_request") else None))
         start_c = lambda: spawn("C", f"http://{rhost}/", timeout=long)
         co = sc.get("co")
         if co == "dnsfirst":
